@@ -162,7 +162,10 @@ def classify(p):
             if s[0] in ("new",) or (s[0] == "local" and not isinstance(s[1], str)):
                 out.append(("C17", "c17:object-variable", text))
             elif s[0] == "formula":
-                out.append(("C03", "c03:top-level-atom", text))
+                if any(mentions(e, objs) for f, e in s[5]):
+                    out.append(("C17", "c17:formula-argument", text))      # an object (variable) given as argument
+                else:
+                    out.append(("C03", "c03:top-level-atom", text))
             else:
                 es = stmt_exprs(s)
                 if any(mentions(e, objs) for e in es):
@@ -179,6 +182,9 @@ def classify(p):
                 kind = t[2] if len(t) > 2 else "constraint"
                 if kind == "structure":
                     out.append(("C03", "c03:rule-structure", "atom %s" % t[1]))
+                elif kind == "argument":
+                    out.append(("C17" if prog and prog["classes"] else "C03", "c17:formula-argument" if prog and prog["classes"] else "c03:subgoal-argument",
+                                "a subgoal of atom %s does not have the arguments written in the rule" % t[1]))
                 else:
                     out.append(("C01", "c01:rule-constraint", "atom %s" % t[1]))
     if v.get("unified") is False:
@@ -205,6 +211,8 @@ def classify(p):
         out.append(("C06", "corr:temporal:fact_rules", str(v["factrules_mismatch"][:3])))
     if v.get("ctors") is False:
         out.append(("C17", "c17:constructor", "objects %s" % [t[1] for t in fails if t[0] == "ctor"]))
+    if v.get("argtypes") is False:
+        out.append(("C17", "c17:argument-type", "an argument of an atom of the plan is not an instance of the parameter's type (atoms %s)" % [t[1] for t in fails if t[0] == "argtype"]))
     if v.get("domains") is False:
         enum_union = prog and any(c["kind"] == "enum" and c["incl"] for c in prog["classes"])
         out.append(("C17", "c17:enum-union-domain" if enum_union else "c17:domain", "variables %s" % [t[1] for t in fails if t[0] == "domain"]))
@@ -326,7 +334,7 @@ def run(ctx, prop):
     for p in res["problems"]:
         if p["status"] == "solved" and p["family"] in ("pl", "tl", "oo"):
             ctx.sample({"problem": p["name"], "family": p["family"], "atoms": p.get("n_atoms"), "active": p.get("n_active"), "unified": p.get("n_unified"),
-                        "objects": p.get("n_objs"), "verdict": {k: p["verdict"].get(k) for k in ("top", "rules", "unified", "acyclic", "temporal", "ctors", "domains")}}, cap=6)
+                        "objects": p.get("n_objs"), "verdict": {k: p["verdict"].get(k) for k in ("top", "rules", "unified", "acyclic", "temporal", "ctors", "argtypes", "domains")}}, cap=6)
     cov["trusted_base"] += [
         "tools/plan_gen.py (generator), tools/plan_conv.py (re-encoding of the harness dump), harness/h_solver.cpp (reads the planner's state through "
         "`#define private public` and the ORATIO_VERIF linkage hook), oracle/plan_sexp.ml + plan_main.ml (input reader of the extracted checker)",
@@ -359,7 +367,7 @@ def replay(prop, path):
     v, info = plan_run.judge(oexe, prog, dump)
     p = {"verdict": v, "fail": v.get("fail", []), "program": prog, "n_init_main": v.get("n_init_main", 0), "dump_excerpt": plan_run.excerpt(dump, v, info)}
     cl = [c for c in classify(p) if c[0] in (prop, "ALL")]
-    print("verdict:", {k: v.get(k) for k in ("top", "rules", "goals", "unified", "acyclic", "temporal", "ctors", "domains", "solution")})
+    print("verdict:", {k: v.get(k) for k in ("top", "rules", "goals", "unified", "acyclic", "temporal", "ctors", "argtypes", "domains", "solution")})
     for c in cl:
         print("VIOLATION property=%s signature=%s %s" % (prop, c[1], c[2]))
     return 1 if cl else 0
